@@ -18,6 +18,8 @@ var commands = map[string]func([]string){
 	"selectors": cmdSelectors,
 	"history":   cmdHistory,
 	"iotrace":   cmdIOTrace,
+	"codec":     cmdCodec,
+	"cli":       cmdCLI,
 }
 
 func main() {
